@@ -759,12 +759,19 @@ impl Prop for Mutated {
             exp.len() + 16,
         );
         // where the statement leaves a choice (an exact duplicate of the previous segment: discard it or give up the
-        // fragment; broadcast segments: one segment only, or reassembled like any others) every consistent choice is right
-        let alternatives: Vec<Vec<(u16, Option<u16>, Vec<u8>)>> =
-            [(true, false), (false, true), (true, true)]
-                .iter()
-                .map(|(d, b)| expected_fragments_policy(&segs_enc, case.rx_buffer as usize, *d, *b))
-                .collect();
+        // fragment; broadcast segments: one segment only, or reassembled like any others; a continuation segment from another
+        // source in the middle of an assembly: ends it, or is passed over) every consistent choice is right
+        let alternatives: Vec<Vec<(u16, Option<u16>, Vec<u8>)>> = (1..8u8)
+            .map(|m| {
+                expected_fragments_policy(
+                    &segs_enc,
+                    case.rx_buffer as usize,
+                    m & 1 != 0,
+                    m & 2 != 0,
+                    m & 4 != 0,
+                )
+            })
+            .collect();
         if got != exp && alternatives.iter().any(|a| *a == got) {
             out.label("another_admissible_policy");
         } else if got != exp {
